@@ -364,3 +364,56 @@ class AGen:
     def selector(self, depth=2):
         sl = self.slist(depth)
         return show_list(sl), sl
+
+    # ---- selectors derived from relationships that really occur in the tree (so the positive case is exercised)
+    def _compound_for(self, el):
+        r = self.r
+        cp = {'ids': [], 'classes': [], 'attrs': [], 'pseudos': []}
+        if el.name in self.names and r.random() < 0.8:
+            cp['type'] = (None, el.name)
+        cls = el.attrs.get('class')
+        if isinstance(cls, list) and cls and all(isinstance(c, str) and c in self.classes for c in cls) and r.random() < 0.3:
+            cp['classes'].append(r.choice(cls))
+        if 'type' not in cp and not cp['classes']:
+            cp['type'] = (None, '*')
+        return cp
+
+    def directed(self, top):
+        import bs4
+        r = self.r
+        els = [e for e in top.descendants if isinstance(e, bs4.Tag)]
+        if not els:
+            return self.selector(1)
+        for _ in range(20):
+            y = r.choice(els)
+            rels = []
+            prevs = [s_ for s_ in y.previous_siblings if isinstance(s_, bs4.Tag)]
+            if prevs:
+                rels.append(('+', prevs[0]))
+                rels.append(('~', r.choice(prevs)))
+            par = y.parent
+            if isinstance(par, bs4.Tag) and not isinstance(par, bs4.BeautifulSoup):
+                rels.append(('>', par))
+                anc = [a for a in y.parents if isinstance(a, bs4.Tag) and not isinstance(a, bs4.BeautifulSoup)]
+                rels.append((' ', r.choice(anc)))
+            if rels:
+                break
+        else:
+            return self.selector(1)
+        comb, x = r.choice(rels)
+        cx, cy = self._compound_for(x), self._compound_for(y)
+        form = r.choice(['plain', 'plain', 'not', 'is', 'has', 'nothas'])
+        if form == 'plain':
+            sl = [[cx, (comb, cy)]]
+        elif form == 'not':
+            c = dict(cy); c['pseudos'] = [('not', [[cx, (comb, self._compound_for(y))]])]
+            sl = [[c]]
+        elif form == 'is':
+            c = {'ids': [], 'classes': [], 'attrs': [], 'pseudos': [('is', [[cx, (comb, cy)]] + self.slist(0), 'is')]}
+            sl = [[c]]
+        else:
+            c = dict(cx); c['pseudos'] = [('has', [(comb, [cy])])]
+            if form == 'nothas':
+                c = {'ids': [], 'classes': [], 'attrs': [], 'pseudos': [('not', [[c]])]}
+            sl = [[c]]
+        return show_list(sl), sl
